@@ -63,23 +63,63 @@ def _float_seq(node):
 
 def _table_records(project, fi, f):
     """quadrature rules kept as data: every tuple/list literal (in the function or in a module constant it reads) that
-    holds exactly two equally long sequences of numbers, plus an optional scalar (the upper bound of |r| for the rule)"""
-    roots = [f]
+    holds exactly two equally long sequences of numbers — the record — optionally accompanied, in the same or in the
+    enclosing tuple, by one scalar (the upper bound of |r| for the rule). Names of module constants inside such literals
+    are looked through."""
     locs = local_names(f)
+    glob = fi.module.globals
+
+    def deref(n):
+        k = 0
+        while isinstance(n, ast.Name) and n.id not in locs and n.id in glob and k < 4:
+            n = glob[n.id]
+            k += 1
+        return n
+
+    def record_of(n):
+        n = deref(n)
+        if not isinstance(n, (ast.Tuple, ast.List)):
+            return None
+        elts = [deref(c) for c in n.elts]
+        seqs = [(c, _float_seq(c)) for c in elts]
+        seqs = [(c, v) for c, v in seqs if v is not None]
+        scal = [const_value(c) for c in elts if const_value(c) is not None]
+        if len(seqs) == 2 and len(seqs[0][1]) == len(seqs[1][1]) and len(elts) == 2 + len(scal) and len(scal) <= 1:
+            return (scal[0] if scal else None, seqs[0], seqs[1])
+        return None
+
+    roots = [f]
     for n in ast.walk(f):
-        if isinstance(n, ast.Name) and isinstance(n.ctx, ast.Load) and n.id not in locs and n.id in fi.module.globals:
-            roots.append(fi.module.globals[n.id])
+        if isinstance(n, ast.Name) and isinstance(n.ctx, ast.Load) and n.id not in locs and n.id in glob:
+            roots.append(glob[n.id])
     recs, seen = [], set()
+
+    def add(rec, thr=None):
+        key = (tuple(rec[1][1]), tuple(rec[2][1]))
+        if key in seen:
+            # the same table reached again (e.g. once through its name, once through the loop tuple): keep a threshold
+            for k_, r_ in enumerate(recs):
+                if (tuple(r_[1][1]), tuple(r_[2][1])) == key and r_[0] is None and (thr is not None or rec[0] is not None):
+                    recs[k_] = (thr if thr is not None else rec[0], r_[1], r_[2])
+            return
+        seen.add(key)
+        recs.append((thr if thr is not None else rec[0], rec[1], rec[2]))
+
     for root in roots:
         for n in ast.walk(root):
-            if not isinstance(n, (ast.Tuple, ast.List)) or id(n) in seen:
+            if not isinstance(n, (ast.Tuple, ast.List)):
                 continue
-            seqs = [(c, _float_seq(c)) for c in n.elts]
-            seqs = [(c, v) for c, v in seqs if v is not None]
-            scal = [const_value(c) for c in n.elts if const_value(c) is not None]
-            if len(seqs) == 2 and len(seqs[0][1]) == len(seqs[1][1]) and len(n.elts) == 2 + len(scal) and len(scal) <= 1:
-                seen.add(id(n))
-                recs.append((scal[0] if scal else None, seqs[0], seqs[1]))
+            r = record_of(n)
+            if r is not None:
+                add(r)
+                continue
+            # (bound, <record or name of one>)
+            elts = [deref(c) for c in n.elts]
+            scal = [const_value(c) for c in elts if const_value(c) is not None]
+            subs = [record_of(c) for c in elts]
+            subs = [x for x in subs if x is not None]
+            if len(scal) == 1 and len(subs) == 1 and len(elts) == 2:
+                add(subs[0], scal[0])
     return recs
 
 
@@ -164,7 +204,9 @@ def check_gl(project: Project, rep):
                                               f"2/((1−x²)P′²) (residuals ≤ 1e-12), Σw = 1")
     got = sorted([(t if t is not None else 9.0, l) for t, l in table])
     want = sorted([(t if t is not None else 9.0, l) for t, l in PUBLISHED_REGIMES])
-    if got == want:
+    if sum(1 for t, _ in table if t is None) > 1:
+        rep.unmodelled("KN-REGIME", fi, f, f"the |r| bounds of the quadrature rules could not be read ({got})")
+    elif got == want:
         rep.discharged("KN-REGIME", fi, f, "regimes by |r|: <0.3 → 3 points, <0.75 → 6, else 10 (Genz)")
     else:
         rep.refuted("KN-REGIME", fi, f, f"regime table {got} differs from the published {want}",
@@ -599,6 +641,8 @@ def check_dispatch(project: Project, rep):
     node = seen[0][2]
     if verdict is True:
         rep.discharged("KN-DISPATCH", fi, node, "product form is used iff the covariance entry is 0")
+    elif verdict is False and I.lossy:
+        rep.unmodelled("KN-DISPATCH", fi, fi.node, f"the dispatch could not be followed exactly ({I.lossy[0]['why']})")
     elif verdict is False:
         rep.refuted("KN-DISPATCH", fi, fi.node, "the product form is not selected exactly when the covariance entry is zero "
                                                 f"(selected under {sym.show(sym.Or(*conds['sbvn_cdf']))[:120]})",
